@@ -8,6 +8,9 @@
     c03 seek   lines "rc frames offset whence codecRet"               → "ret=… asked=… rc=… err=…"
     c03 hdr    lines "<filelen> <pipe> item item | item …"            → header-cache events against a file of that length
                items: e  f<n>  b<n>  G<n>  p<n>  j<n>  !  ; "|" starts the next psf_binheader_readf call
+               S<n> / C<n>: the parser itself calls psf_fseek (n, SEEK_SET / SEEK_CUR) (file position only)
+               ?: if the current call was cut short by a refused allocation, print STOP and end the scenario
+                  (the parser then sees zeros and takes a path the scenario does not describe)
 -/
 import SfModel
 import SfModel.Generated.C03Consts
@@ -103,8 +106,19 @@ def hdrLine (line : String) : String := Id.run do
     let mut pos : Int := 0
     let mut out : Array String := #[]
     let mut bad := false
+    let mut halt := false
     for t in items do
-      if t == "|" then
+      if halt then
+        pure ()
+      else if t == "?" then
+        if r.stopped then
+          out := out.push "STOP"
+          halt := true
+      else if t.startsWith "S" then
+        pos := (t.drop 1).toString.toInt?.getD 0
+      else if t.startsWith "C" then
+        pos := pos + (t.drop 1).toString.toInt?.getD 0
+      else if t == "|" then
         out := out.push s!"ret:{r.byteCount}"
         r := { st := r.st }
       else
